@@ -219,6 +219,13 @@ GROUPS = {
         "retrain_acceptance", "reset_acceptance", "acceptance_threshold",
         "train_on_empty", "training_frequency", "cooldown", "memory",
         "maximum_uninformed"]),
+    # how the flow is built and what each reset policy re-initialises
+    "flow": (False, [
+        "flow_config.ftype", "flow_config.linear_transform",
+        "flow_config.batch_norm_between_layers",
+        "flow_config.batch_norm_within_layers", "flow_config.distribution",
+        "flow_config.n_blocks", "reset_weights", "reset_permutations",
+        "reset_flow"]),
     "levels": (True, [
         "threshold_method", "strict_threshold", "replace_all",
         "draw_constant", "draw_iid_live", "n_initial", "min_samples",
@@ -276,6 +283,41 @@ def to_case(spec, default_seed):
             "opts": [[n, v] for n, v in spec["opts"]]}
 
 
+# options whose value lives in state that a checkpoint must carry: each value
+# is also run as a history that is killed once and resumed
+RESUME_OPTS = {
+    False: ["latent_prior", "flow_proposal_class", "reparameterisations",
+            "flow_config.ftype", "flow_config.distribution",
+            "flow_config.linear_transform", "constant_volume_mode",
+            "analytic_priors", "accumulate_weights", "shrinkage_expectation",
+            "maximum_uninformed", "n_pool", "fixed_radius", "max_radius",
+            "truncate_log_q", "check_acceptance", "reset_flow",
+            "torch_dtype", "fallback_reparameterisation"],
+    True: ["threshold_method", "threshold_kwargs", "draw_iid_live",
+           "reparameterisation", "replace_all", "strict_threshold",
+           "save_log_q", "draw_constant", "reset_flow", "stopping_criterion",
+           "min_remove", "max_samples", "n_update", "weighted_kl", "clip",
+           "flow_config.ftype"],
+}
+
+
+def with_resume(case):
+    import copy
+
+    c = copy.deepcopy(case)
+    kw = c["kwargs"]
+    kw["checkpointing"] = True
+    kw["checkpoint_on_iteration"] = True
+    if c["ins"]:
+        kw["checkpoint_interval"] = 1
+        c["kills"] = [{"event": "level", "k": 4}]
+    else:
+        kw["checkpoint_interval"] = 20
+        c["kills"] = [{"event": "iteration", "k": kw["nlive"] + 90}]
+    c["labels"] = list(c["labels"]) + ["history:killed-and-resumed"]
+    return c
+
+
 def make_history(case):
     # importance sampler: the stopping rule in use must be the configured one
     # (a mis-paired criterion / tolerance ends only at the iteration cap)
@@ -287,7 +329,12 @@ def judge(case, reports, add, stats):
     r = reports[-1]
     classes = list(case.get("labels", []))
     status = r.get("status")
-    started = bool(r.get("sampling_started"))
+    # (a process that resumes a killed run does not draw the initial live
+    # points again: sampling had started before)
+    started = bool(r.get("sampling_started")) or any(
+        q.get("status") == "killed" for q in reports[:-1])
+    if len(reports) > 1:
+        classes.append("resumed")
     res = r.get("result") or {}
     if status == "completed":
         classes.append("outcome:completed")
@@ -351,10 +398,13 @@ def build_cases(ctx):
     for s in seeds:
         for spec in singles:
             cases.append(to_case(spec, s))
+            if s == seeds[0] and not spec.get("gw") and \
+                    spec["opts"][0][0] in RESUME_OPTS[spec["ins"]]:
+                cases.append(with_resume(cases[-1]))
     pairs = group_pairs()
     if ctx.quick:
-        k = ctx.seed % 6
-        pairs = [p_ for i, p_ in enumerate(pairs) if i % 6 == k]
+        k = ctx.seed % 3
+        pairs = [p_ for i, p_ in enumerate(pairs) if i % 3 == k]
     for spec in pairs:
         c = to_case(spec, seeds[0])
         c["labels"].append("group-pair:" + spec["group"])
